@@ -66,6 +66,11 @@ type DFACache struct {
 	// Statistics
 	hits   uint64
 	misses uint64
+
+	// scratch holds the buffers NFA state lists are computed in during a search
+	// (determinize, start states, end-of-input checks), see searchScratch. It
+	// survives Clear/Reset: it carries no information from one use to the next.
+	scratch searchScratch
 }
 
 // Get retrieves a state by its key.
@@ -96,6 +101,13 @@ func (c *DFACache) Insert(key StateKey, state *State) (StateID, error) {
 		return InvalidState, ErrCacheFull
 	}
 
+	return c.insertNew(key, state), nil
+}
+
+// insertNew is Insert for a key that is known to be absent from a cache that is
+// known not to be full (the caller has just asked Get and IsFull): it skips both
+// checks, the second of which walks over all states.
+func (c *DFACache) insertNew(key StateKey, state *State) StateID {
 	// Assign premultiplied state ID (byte offset into flatTrans).
 	// Tag with match bit if accepting state.
 	if state.id == InvalidState {
@@ -122,7 +134,7 @@ func (c *DFACache) Insert(key StateKey, state *State) (StateID, error) {
 		}
 	}
 
-	return state.ID(), nil
+	return state.ID()
 }
 
 // safeOffset computes flat table offset from premultiplied StateID.
